@@ -281,7 +281,7 @@ func R28() Rule {
 				}
 			}
 		}
-		if nStores < 8 {
+		if nStores < 4 {
 			c.Unknown("R28", "floor/stores", token.NoPos, "only %d stores to Column.Cells found", nStores)
 		}
 		// (b) comparator / search predicate agreement
@@ -310,7 +310,7 @@ func R28() Rule {
 				c.Check(ok, "R28", fmt.Sprintf("b/search-predicate/%s", core.FuncName(cl)), call.Pos(), "predicate is cells[i].ts < X: monotone on a descending slice", "the sort.Search predicate is not of the form cells[i].ts < X ("+why+"): on a descending slice the binary search returns an arbitrary index")
 			}
 		}
-		if nSearch < 3 {
+		if nSearch < 2 {
 			c.Unknown("R28", "floor/searches", token.NoPos, "only %d sort.Search sites found", nSearch)
 		}
 		// scrubFam sorts columns ascending by qualifier
@@ -380,7 +380,7 @@ func R28() Rule {
 				}
 			}
 		}
-		if nCtor < 3 {
+		if nCtor < 2 {
 			c.Unknown("R28", "floor/constructors", token.NoPos, "only %d Family/Column constructions found", nCtor)
 		}
 		// appendOrReplaceCell replaces on equal timestamp and appends only otherwise.  Structural
@@ -557,7 +557,7 @@ func R30() Rule {
 				}
 			}
 		}
-		if n < 10 {
+		if n < 5 {
 			c.Unknown("R30", "floor/writes", token.NoPos, "only %d row-structure writes found", n)
 		}
 		// the write RPCs hand their row to the applier
